@@ -35,6 +35,7 @@ RULE = ('random cores on 1-3 hex rings (7/19 positions, quick: up to 7), '
         'when >= 2 assemblies exchange > 1 W through the gap in some step; '
         'distinct by (layout, types, gap option)')
 RULE += (' Later rounds added: cores with two axial boundaries closer than one step (the lower one a region boundary).')
+RULE += (' Round 12: kind adiabatic_lowflow (adiabatic cores with the low-flow wall treatment active almost everywhere, slow coolant, duct power).')
 DECIDING = ['J1_asm_mesh_vs_gap_mesh', 'J2_gap_balance', 'J3_core_step']
 CASE_TIMEOUT = {'quick': 200, 'thorough': 900}
 BUDGET = {'quick': 700, 'thorough': 3300}
@@ -55,6 +56,12 @@ def cases(tier, seed):
     for i in range(n_ad):
         out.append({'name': 'adiabatic-%d' % i, 'seed': [seed, 22, i],
                     'n_ring': 2, 'gap': 'none'})
+    # adiabatic cores in which the low-flow wall treatment is (nearly always)
+    # active: large cut-off, slow coolant, power in the duct walls
+    n_lf = 10 if tier == 'quick' else 200
+    for i in range(n_lf):
+        out.append({'name': 'adiabatic_lowflow-%d' % i, 'seed': [seed, 23, i],
+                    'n_ring': 2, 'gap': 'none', 'lowflow': True})
     return out
 
 
@@ -70,6 +77,17 @@ def build_problem(case):
                                max_rings=(5 if nring < 3 else 4),
                                vel_range=(0.2, 6.0), length=0.5,
                                conv_approx=0.3)
+    if case.get('lowflow'):
+        P['setup']['conv_approx'] = True
+        P['setup']['conv_approx_dz_cutoff'] = float(wl.choose(rng, [0.05,
+                                                                    0.1]))
+        feats['conv_approx'] = True
+        for q in P['positions']:
+            if 'flowrate' in q and rng.random() < 0.6:
+                q['flowrate'] = q['flowrate'] * float(
+                    wl.loguniform(rng, 0.02, 0.3))
+        for sp in P['power']['asm'].values():
+            sp['comps'] = [1, 2, 3]
     feats['n_ring'] = nring
     feats['near_bounds'] = None
     if rng.random() < 0.3:
